@@ -186,7 +186,7 @@ TNew ==
 TMeta  == e.op = "meta" /\ UNCHANGED <<adsrVars, dead, Skey, lastK, cont, sAtTick, fresh>> /\ l' = l + 1
 TPanic == /\ e.op \in {"panic", "hang"}
           /\ UNCHANGED <<adsrVars, Skey, lastK, cont, sAtTick, fresh>>
-          /\ Advance({<<"C17", e.op>>})
+          /\ Advance({<<"C17", e.op>>, <<"C01", e.op>>, <<"C02", e.op>>, <<"C03", e.op>>})
 
 TNext == l <= NRec /\ (TMeta \/ TNew \/ TTick \/ TSkip \/ TOn \/ TOff \/ TSetTime \/ TSetSustain \/ TPanic)
 
